@@ -117,6 +117,7 @@ func runWorker(args []string) int {
 	} else {
 		def.Run(c)
 	}
+	c.WatchdogOff(true) // the workload is over: sorting and writing the result is not a case in flight
 	if err := c.Finish(start, *out+".digests"); err != nil {
 		fmt.Fprintln(os.Stderr, "finish:", err)
 		return 2
